@@ -115,6 +115,7 @@ theorem hp_partialApply (c : ICtx) (D : Env) (a : Nat) (args : List (Option Expr
   split
   · apply HP.bnd (hp_currentVars cfg hs o); intro vars
     apply HP.bnd (hp_evalArgs ev hev c _ _); intro r
+    apply HP.bnd (HP.lift _); intro pat'
     exact HP.bnd (HP.alloc _) (fun _ => HP.ret _)
   · exact HP.thr _
 
@@ -241,6 +242,14 @@ theorem hp_step (e : Expr) (c : ICtx) (D : Env) : HP (step cfg ev e c D) := by
     simp only [step]
     exact HP.bnd (hev _ _ _) (fun _ => HP.bnd (hev _ _ _) (fun _ => HP.ret _))
   | fnE t ps body =>
+    simp only [step]
+    cases cfg.share <;> simp only [Bool.false_eq_true, if_false, if_true]
+    all_goals
+      first
+        | (apply HP.bnd (HP.alloc _); intro _; exact HP.ret _)
+        | (apply HP.bnd (HP.ret _); intro _; apply HP.bnd (HP.alloc _); intro _; exact HP.ret _)
+        | (apply HP.bnd (HP.setSlot _ _); intro _; apply HP.bnd (HP.alloc _); intro _; exact HP.ret _)
+  | tfnE t ps tys rt body =>
     simp only [step]
     cases cfg.share <;> simp only [Bool.false_eq_true, if_false, if_true]
     all_goals
